@@ -20,6 +20,8 @@ claim("C07", "proof",
       "DESIGN.md section 6, C07")
 
 claim("C01", "proof",
+      "Translator tie: ArrayEvaluator::operator() (eval_array.cpp) is re-read on every run into Gen/ArrayKernels_gen.v and "
+      "proved equal, opcode by opcode, to the real-number kernels the semantic theorems use (C01_value_kernels_from_source).  "
       "Coq theorem batch_pointwise (every number type, hence binary32: a batch position depends only on that position "
       "of the inputs, for every batch size, SIMD-rounded count and stale content) plus the deck/tape and rewriting "
       "theorems shared with C07; tie: the model's Deck::Deck is run on the implementation's own optimised DAG and must "
@@ -127,6 +129,8 @@ claim("C05", "proof",
       "DESIGN.md section 6, C05")
 
 claim("C02", "proof",
+      "Translator tie: IntervalEvaluator::operator() (eval_interval.cpp) is re-read on every run into "
+      "Gen/IntervalDispatch_gen.v and proved equal to the model's dispatch (C02_dispatch_from_source).  "
       "Coq model of every may-be-NaN flag formula and case split of interval.hpp (Boost's primitives abstracted as "
       "bounds functions assumed to enclose the exact image), soundness theorems over extended reals, composition over "
       "tapes and the EMPTY/FILLED classification corollary; tie: Interval::<op> on operand intervals aimed at the case "
@@ -277,7 +281,11 @@ claim("C06", "proof",
       "constant second argument, shown necessary for mod); lifted by induction over well-formed tapes to every slot; "
       "DerivArrayEvaluator::derivs returns (d/dx, d/dy, d/dz); the Jacobian evaluator returns the partials in free variables; "
       "CONST_VAR yields zero for variables and passes spatial gradients; a min/max kernel returns exactly one branch's "
-      "gradient, tie or not.  Tie: the model kernels (extracted, binary32 emulation) are run on the implementation's own "
+      "gradient, tie or not.  Translator tie: DerivArrayEvaluator::operator() (eval_deriv_array.cpp) and "
+      "ArrayEvaluator::operator() (eval_array.cpp) are re-read on every run into Gen/DerivKernels_gen.v / ArrayKernels_gen.v "
+      "(one match arm per C++ case) and proved equal to the model's kernels for every opcode and number type "
+      "(C06_kernels_from_source), so the chain-rule theorem is about the formulas the source states today "
+      "(C06_kernel_correct_source).  Correspondence: the model kernels (extracted, binary32 emulation) are run on the implementation's own "
       "optimised deck at generated points and compared with DerivArrayEvaluator / JacobianEvaluator / C API gradients; "
       "oracle: central differences of the implementation's own value evaluator at smooth points, FeatureEvaluator output at "
       "constructed min/max ties (every feature is one branch's gradient), isInside on non-zero values.",
